@@ -64,4 +64,22 @@ FIXED_BY_SUBJECT = {
  "fix: CER/DER encoding of an empty time string leaked IndexError": [
    ('C10', 'CER/DER re-encoding of an accepted empty time value leaked IndexError'),
    ('C20', 'CER/DER encoder leaked IndexError on an empty time string')],
+ "fix: fromDateTime() wrote a wrong UTC offset": [
+   ('C20', 'fromDateTime lost the sign of the UTC offset and wrote seconds as minutes')],
+ "fix: fromDateTime() for years below 1000": [
+   ('C20', 'fromDateTime produced unparseable strings for years below 1000 (strftime %Y not zero-padded)')],
+ "fix: encoding a Python mapping that leaves OPTIONAL/DEFAULT members out": [
+   ('C17', 'encode(mapping, asn1Spec=T) refused a mapping that omits an OPTIONAL or DEFAULT member')],
+ "fix: native decoder turned empty lists and mappings into schema objects": [
+   ('C17', 'empty SEQUENCE OF / field-less SEQUENCE did not survive the native round trip')],
+ "fix: BitString.asBinary() of an empty bit string": [
+   ('C17', 'native codec turned the empty BIT STRING into one zero bit')],
+ "fix: DEFAULT omission for bare Python values compared type-blind": [
+   ('C17', 'bare Python members equal to a NULL/OID/REAL/character DEFAULT were still written')],
+ "fix: chunked encoding of bare octets kept the schema's tags on every fragment": [
+   ('C17', 'CER of a bytes value > 1000 octets with a tagged asn1Spec differed from the value object encoding')],
+ "fix: DER SET ordering of a nested untagged CHOICE given as a Python mapping": [
+   ('C17', 'DER SET member order differed between a Python mapping and the value object for nested untagged CHOICE members')],
+ "fix: chunked encoding of a bare BIT STRING value kept the schema's tags on every fragment": [
+   ('C17', 'CER of a long bit string given as Python value with a tagged asn1Spec differed from the value object encoding')],
 }
